@@ -130,6 +130,11 @@ def judge(case, impl, model):
                 fails.append((f"differs-from-constructor:{kinds}", "deserialized instance differs from the constructor's: " + json.dumps(got["ok"])[:200] + " vs " + json.dumps(exp["ok"])[:200]))
         elif "ok" in got:
             fails.append((f"accepts-non-image:{kinds}", "Deserializer accepts a document that is not the JSON form of constructor-valid arguments: " + json.dumps(case["doc"])[:250]))
+    fn = impl.get("deser_fn")
+    if fn is not None:
+        if ("ok" in fn) != ("ok" in got) or ("err" in fn and fn["err"] != got["err"]) or ("ok" in fn and not S._same(fn["ok"], got["ok"])):
+            fails.append((f"deserialize-fn-differs:{kinds}", "deserialize_structure(cls, d, keep_undefined=...) and Deserializer(cls).deserialize(d) disagree: "
+                          + json.dumps(fn)[:150] + " vs " + json.dumps(got)[:150] + " for " + json.dumps(case["doc"])[:150]))
     if impl.get("doc_unchanged") is False:
         fails.append((f"mutates-document:{kinds}", "Deserializer modified the caller's document (C19)"))
     return msg, fails
